@@ -15,3 +15,9 @@ chk("C06", "other",
     "Real-arithmetic model; products abstracted by an uninterpreted commutative function for the count equivalence; rounding abstracted to 'within 1/2 of h' and R/H/UB cut to fresh matrices in the refinement harness (over-approximations); <=3 peaks per query; tol in (0,1/2]. indexing.refine (Python LSQ) is not encoded; integer overflow needing >2^31 accumulations is outside the bound.",
     "symbolic execution of LLVM IR (llsym) + symbolic execution of the Python reference (pysym) + z3 per-path validity queries; abstract counterexamples confirmed on the rebuilt kernel through ctypes", "DESIGN.md 3/C06", "llsym+pysym")
 del NA["C06"]
+
+chk("C07", "other",
+    "Inductive step + bounded composition + unbounded race-freedom query, all on the real code: one call of score_and_assign (clang IR) from an arbitrary symbolic pre-state implements the min-update; 3 grains x 2-3 peaks composed in every grain order end at the first arg-min / -1 / minimum error and are order independent apart from ties; the real Python driver fight_over_peaks and myhistogram are executed symbolically; the OpenMP loop body's two abstract iterations kA != kB never alias (z3, no bound on ng, chunk size or threads).",
+    "Real-arithmetic model; per-peak error cut to a free real at the store to the C local sumsq (its definition is a separate obligation); OpenMP runtime contract (static schedule, reduction) trusted; sequential consistency; refinegrains.assignlabels is mirrored as a call protocol (per-grain g-vectors = free errors), not executed.",
+    "symbolic execution of LLVM IR (llsym, sequential and -fopenmp outlined) + pysym on the Python driver + z3; alias/footprint queries for schedule independence; confirmation on the rebuilt OpenMP kernel", "DESIGN.md 3/C07, 2.9", "llsym+pysym")
+del NA["C07"]
